@@ -149,7 +149,12 @@ def define_adhoc(spec, dead=None):
     spec = {"name": "F7_2", "base": "opt.FQ2", "attrs": {"field_modulus": 7,
             "FQ2_MODULUS_COEFFS": [1, 0]}}
     """
-    base = REG.lookup(spec["base"])
+    if spec.get("bases"):
+        bases = tuple(REG.lookup(b) for b in spec["bases"])   # a tower as the library builds it
+        base = bases[0]
+    else:
+        base = REG.lookup(spec["base"])
+        bases = (base,)
     attrs = {}
     names = sorted(spec["attrs"])
     for k in names:
@@ -161,14 +166,14 @@ def define_adhoc(spec, dead=None):
         # give the new class the address of a dead one
         keep = []
         for _ in range(40):
-            c = type(str(spec["name"]), (base,), dict(attrs))
+            c = type(str(spec["name"]), bases, dict(attrs))
             if id(c) in dead:
                 cls = c
                 break
             keep.append(c)
         del keep
     if cls is None:
-        cls = type(str(spec["name"]), (base,), attrs)
+        cls = type(str(spec["name"]), bases, attrs)
     cls.__module__ = "sim.adhoc"
     REG.add("adhoc.%s" % spec["name"], cls)
     return cls
@@ -236,10 +241,12 @@ def code_digest(code):
     return d
 
 
-def _canon_func(f, depth, stack):
+def _canon_func(f, depth, stack, with_state=True):
     code = getattr(f, "__code__", None)
     out = ["func", getattr(f, "__module__", None), getattr(f, "__qualname__", None),
            code_digest(code) if isinstance(code, types.CodeType) else None]
+    if not with_state:
+        return out
     dflt = getattr(f, "__defaults__", None)
     kw = getattr(f, "__kwdefaults__", None)
     if dflt:
@@ -509,13 +516,17 @@ def _rebuild_fqp(c):
     o = None
     try:
         o = cls(vals)
-    except TypeError:
+        if canon(o) != c:
+            o = None
+    except Exception:
+        o = None
+    if o is None:
+        # a generic FQP (the family's FQP base used directly) takes its modulus
+        # polynomial per element
         try:
             o = cls(vals, rebuild(c[3]))
         except Exception:
             o = None
-    except Exception:
-        o = None
     if o is None or canon(o) != c:
         raise Unbuildable("fqp round trip %s" % c[1])
     return o
@@ -636,6 +647,14 @@ def snapshot_canon(data_only=False):
                                       _is_code_like(av)):
                         # code (also behind wrappers such as lru_cache) is not data
                         continue
+                    fn = av.__func__ if isinstance(av, (classmethod, staticmethod)) else av
+                    if isinstance(fn, types.FunctionType):
+                        out["%s:%s.%s" % (mn, name, an)] = [
+                            type(av).__name__, _canon_func(fn, 0, set(), with_state=False)]
+                        st = _canon_func(fn, 0, set())[4:]
+                        if st:
+                            out["%s:%s.%s.__state__" % (mn, name, an)] = st
+                        continue
                     out["%s:%s.%s" % (mn, name, an)] = canon(av)
                 continue
             if data_only and _is_code_like(v):
@@ -647,6 +666,15 @@ def snapshot_canon(data_only=False):
                 # when the sub-module is first loaded): not data
                 if not data_only:
                     out["%s:%s" % (mn, name)] = ["module", v.__name__]
+                continue
+            if isinstance(v, types.FunctionType):
+                # code under the function's own key; mutable state a function can
+                # carry (default arguments, closure cells: the classic memo-in-a-
+                # default-argument) under an internal key - its changes are probes
+                out["%s:%s" % (mn, name)] = _canon_func(v, 0, set(), with_state=False)
+                st = _canon_func(v, 0, set())[4:]
+                if st:
+                    out["%s:%s.__state__" % (mn, name)] = st
                 continue
             out["%s:%s" % (mn, name)] = canon(v)
     return out
@@ -712,6 +740,35 @@ def diff_snapshots(base, cur, base_slots):
 # --------------------------------------------------------------------------
 # interpreter-global state (I4)
 # --------------------------------------------------------------------------
+def module_graph_incoherence():
+    """The import system's two views of the package must agree: a loaded
+    py_ecc sub-module is the attribute of its (loaded) parent package, and a
+    module-valued attribute of a py_ecc package is the object in sys.modules.
+    Returns the sorted list of disagreements (normally empty).  A loader that
+    'rolls back' sys.modules after a failed import, or caches module objects of
+    its own, leaves orphans: the same class then exists twice."""
+    bad = []
+    mods = {k: v for k, v in list(sys.modules.items())
+            if (k == "py_ecc" or k.startswith("py_ecc.")) and isinstance(v, types.ModuleType)}
+    for name, m in mods.items():
+        if "." in name:
+            parent, _, leaf = name.rpartition(".")
+            p = mods.get(parent)
+            if p is not None:
+                a = p.__dict__.get(leaf)
+                if isinstance(a, types.ModuleType) and a is not m:
+                    bad.append("%s: attribute of %s is another module object" % (name, parent))
+        for an, av in list(m.__dict__.items()):
+            if isinstance(av, types.ModuleType) and (av.__name__ == "py_ecc" or
+                                                     av.__name__.startswith("py_ecc.")):
+                cur = sys.modules.get(av.__name__)
+                if cur is not av:
+                    bad.append("%s.%s: module %s is %s in sys.modules" % (
+                        name, an, av.__name__, "absent" if cur is None else "another object"))
+    return sorted(set(bad))
+
+
+
 def interp_state():
     import gc
     import hashlib as _hl
@@ -753,6 +810,7 @@ def interp_state():
         (k, id(v)) for k, v in vars(_hm).items() if not k.startswith("__"))).encode()
     ).hexdigest()[:16]
     st["random_state"] = hashlib.sha256(repr(random.getstate()).encode()).hexdigest()[:16]
+    st["module_graph"] = module_graph_incoherence()
     st["excepthook"] = sys.excepthook is sys.__excepthook__
     st["threading_excepthook"] = getattr(threading.excepthook, "__name__", "?")
     st["builtins"] = hashlib.sha256(repr(sorted(
